@@ -120,3 +120,68 @@ def pressure_arms(ctx, qual, opaque=(), array_mode=False):
         ds = cmp_decisions(p, "pressure")
         out[tuple((k, c) for k, c, _ in ds)] = (p.value, " & ".join(("" if c else "not ") + d for _k, c, d in ds), p)
     return out
+
+
+# ---------------------------------------------------------------------------------------------
+# shared rule: roles of (y, x) at quadrature / differentiation call sites  (C15-a, used by C02 C03 C08 C17 C20)
+QUADRATURE = {
+    "scipy.integrate.cumulative_trapezoid": ("y", "x"),
+    "scipy.integrate.trapezoid": ("y", "x"),
+    "scipy.integrate.simpson": ("y", "x"),
+    "numpy.trapezoid": ("y", "x"),
+    "numpy.trapz": ("y", "x"),
+    "numpy.gradient": ("f", "*varargs[0]"),
+}
+
+
+def is_root_variable(it, v, roots):
+    """Is the abstract value an *independent-variable root*: a parameter / attribute / table column
+    named in `roots`, or a coordinate grid (np.arange / np.linspace)?"""
+    from ..values import Vec
+
+    if isinstance(v, Vec):
+        # a grid: affine in the position symbol with no other atoms
+        g = v.gen
+        return not v.over and all(a[0] in ("sym", "const") for a in nf.atoms(g)) and nf.depends(g, "@J")
+    p = it.to_nf(v)
+    a = it.single_atom(p)
+    if a is None:
+        return False
+    if a[0] == "sym":
+        return a[1] in roots or a[1].split(".")[-1] in roots
+    if a[0] == "fn" and a[1] == "[]" and len(a[2]) == 2:
+        k = it.single_atom(nf.unkey(a[2][1]))
+        return k is not None and k[0] == "sym" and k[1].strip("'\"") in roots
+    return False
+
+
+def check_quadrature(ctx, rule, ev, it, roots, construct, where, need_initial=True):
+    """ev: ext_call event of a QUADRATURE callee. Returns the ordinate NF."""
+    callee = ev.data["callee"]
+    yn, xn = QUADRATURE[callee]
+    a = ev.data["args"]
+    y, x = a.get(yn), a.get(xn)
+    if y is None or x is None:
+        ctx.bad(rule, construct, where, f"{callee.split('.')[-1]} receives an explicit ordinate and abscissa", signature="missing y or x", args=sorted(a))
+        return None
+    x_root, y_root = is_root_variable(it, x, roots), is_root_variable(it, y, roots)
+    from ..values import Vec as _Vec
+
+    ynf = y.gen if isinstance(y, _Vec) and not y.over else it.to_nf(y)  # elementwise term of a vector
+    xnf = x.gen if isinstance(x, _Vec) and not x.over else it.to_nf(x)
+    ok = x_root and not y_root
+    ctx.check(
+        ok, rule, construct, where,
+        f"{callee.split('.')[-1]}: the abscissa is the independent variable ({'/'.join(sorted(roots))} or a grid) and the ordinate is not",
+        signature="roles swapped" if (y_root and not x_root) else "abscissa is not the independent variable",
+        ordinate=nf.show(ynf, 300), abscissa=nf.show(xnf, 200),
+    )
+    if need_initial and callee.endswith("cumulative_trapezoid"):
+        ini = a.get("initial")
+        good = ini is not None and isinstance(ini, Num) and not ini.nf  # constant 0
+        ctx.check(
+            good, rule, construct + ":initial", where,
+            "cumulative_trapezoid is given initial=0 (result starts at zero and has the length of the grid)",
+            signature="initial", initial=str(ini),
+        )
+    return ynf if ok else None
